@@ -30,7 +30,7 @@ import (
 )
 
 // AllKinds is the full action alphabet (per user), simplest first.
-var AllKinds = []string{"new", "comment", "title", "status", "label", "editcomment", "twoedits", "commentlast",
+var AllKinds = []string{"new", "comment", "title", "status", "label", "editcomment", "twoedits", "commentlast", "setmeta",
 	"idmutate", "push", "pull", "remove", "resolveall", "reopen"}
 
 // Params selects the alphabet and the acting users.
@@ -323,7 +323,7 @@ func (m *model) Actions() []string {
 		first, last := m.targets(x)
 		for _, k := range m.kinds[x] {
 			switch k {
-			case "comment", "title", "status", "label", "editcomment", "twoedits", "remove":
+			case "comment", "title", "status", "label", "editcomment", "twoedits", "remove", "setmeta":
 				if first == "" {
 					continue
 				}
@@ -515,6 +515,24 @@ func (m *model) apply(k, x string) (string, []xstate.Violation, error) {
 			return "commit-" + errTag(err), nil, nil
 		}
 		return "ok", m.ackCheck(x, k, id, []entity.Id{opId}), nil
+	case "setmeta":
+		// what the exporters do after pushing a bug to a tracker: tag the create operation of a
+		// bug whose snapshot is already compiled in this session
+		m.nEdit[x]++
+		m.note(x, fmt.Sprintf("setmeta%d", m.idx(first)))
+		b, err := c.Bugs().Resolve(first)
+		if err != nil {
+			return "resolve-" + errTag(err), nil, nil
+		}
+		snap := b.Snapshot()
+		op, err := b.SetMetadata(snap.Operations[0].Id(), map[string]string{MetaKey: MetaValue})
+		if err != nil {
+			return "edit-" + errTag(err), nil, nil
+		}
+		if err := b.Commit(); err != nil {
+			return "commit-" + errTag(err), nil, nil
+		}
+		return "ok", m.ackCheck(x, k, first, []entity.Id{op.Id()}), nil
 	case "twoedits":
 		// first edit staged, then every other bug is resolved (memory pressure: with 3+ bugs
 		// and 2 slots something must be evicted, but never an entity with staged operations),
